@@ -221,3 +221,49 @@ def row_eq(a, b):
             and raw(a.windage_adj) == raw(b.windage_adj) and raw(a.look_distance) == raw(b.look_distance)
             and raw(a.angle) == raw(b.angle) and a.density_factor == b.density_factor and a.drag == b.drag
             and raw(a.energy) == raw(b.energy) and raw(a.ogw) == raw(b.ogw) and a.flag == b.flag)
+
+
+# ---------------------------------------------------------------------------------------
+# per-shot state of the solver (C01/C05/C09/C10/C17): what _init_trajectory must derive from the shot
+def miller_sg(twist_in, length_in, diameter_in, weight_gr, mv_fps, temp_f, pressure_mmhg):
+    """Miller stability with the velocity and atmosphere corrections; 0 when twist or bullet
+    dimensions (or pressure) are not given"""
+    if twist_in == 0 or length_in == 0 or diameter_in == 0 or pressure_mmhg == 0:
+        return 0
+    t = abs(twist_in) / diameter_in
+    ln = length_in / diameter_in
+    sd = 30 * weight_gr / (t * t * diameter_in * diameter_in * diameter_in * ln * (1 + ln * ln))
+    fv = math.pow(mv_fps / 2800, 1.0 / 3.0)
+    ftp = ((temp_f + 460) / (59 + 460)) * (29.92 / (pressure_mmhg / 25.4))
+    return sd * fv * ftp
+
+
+def launch_velocity_mps(ammo, powder_temp_q):
+    """velocity the solver launches with: the stated one, or - sensitivity enabled - the linear law
+    evaluated at the atmosphere's powder temperature"""
+    if not ammo.use_powder_sensitivity:
+        return raw(ammo.mv)
+    return velocity_at(raw(ammo.mv), celsius_of_raw_f(raw(ammo.powder_temp)), ammo.temp_modifier,
+                       celsius_of_raw_f(raw(powder_temp_q)))
+
+
+def init_once(calc, shot):
+    """history harness: a fresh calculator initialised for a shot"""
+    calc._init_trajectory(shot)
+    return calc
+
+
+def init_twice(calc, shot_a, shot_b):
+    """history harness: a calculator that served another shot before (its state after the second
+    initialisation must be a function of the second shot only)"""
+    calc._init_trajectory(shot_a)
+    calc._init_trajectory(shot_b)
+    return calc
+
+
+def init_edit_init(calc, shot, k, cd):
+    """history harness: the shot's drag table is edited in place between two uses of one calculator"""
+    calc._init_trajectory(shot)
+    shot.ammo.dm.drag_table[k].CD = cd
+    calc._init_trajectory(shot)
+    return calc
